@@ -18,7 +18,7 @@ def run(prop, tier, seed):
     quick = tier == "quick"
     M = "MC_Inherit.tla"
     if quick:
-        sets = [("chain", "ShapesChain", "DeclsQ", "RootQ", "DeclsQ"), ("diam", "ShapesDiamond", "DeclsQ", "RootQ", "RootQ")]
+        sets = [("chain", "ShapesChain", "DeclsQ", "RootQ", "DeclsQ"), ("diam", "ShapesDiamond", "DeclsQD", "RootQ", "RootQ")]
     else:
         sets = [("chain", "ShapesChain", "DeclsT", "DeclsT", "DeclsT"), ("diam", "ShapesDiamond", "DeclsT", "RootQ", "DeclsQ")]
     props, gens = [], []
